@@ -27,7 +27,7 @@ import subprocess
 import sys
 import time
 
-from ..core import MachineryFailure, NCPU, sha
+from ..core import MachineryFailure, NCPU, REPO, sha
 from .. import tlc
 
 NOBODY = 65534
@@ -489,6 +489,7 @@ class Campaign:
         self.cid = {}
         self.classes = collections.Counter()
         self.nrun = 0
+        self.stamp = tree_stamp()
 
     # ---- layout: path ids of a (lang, ns, copy) combination, discovered from a default fresh run
     def layout(self, lang, ns, copy):
@@ -612,6 +613,8 @@ class Campaign:
                 sub = self.judge([stims[si] for si in sus], [allobs[si] for si in sus], label, report=False, count=False)
                 self.ctx.cov["traces_validated_against_impl"] = keep
                 found = [f for f in found if f[0] not in sus] + [(sus[j], m, cl) for j, m, cl in sub]
+        if found and tree_stamp() != self.stamp:
+            raise MachineryFailure("the tree under test (%s) changed while the check was running; run it again" % REPO)
         for si, (i, pre, snap), cl in found:
             self.report(stims[si], allobs[si], i, pre, snap, cl, label)
         return found
@@ -887,21 +890,6 @@ def attach_expectation(camp, s):
     s["exp"] = exp
 
 
-def canonical_needs(s):
-    """fresh references needed to translate model contents: every (omit, v) the history uses, for type and support files"""
-    extra = []
-    seen = set()
-    for st in s["steps"]:
-        if st["a"] == "run":
-            o = st["o"]
-            for om, gs in ((o["omit"], "never"), (False, "only")):
-                k = (om, gs, o["v"])
-                if k not in seen:
-                    seen.add(k)
-                    extra.append(R(omit=om, gs=gs, v=o["v"]))
-    return extra
-
-
 def random_histories(ctx, sb, n):
     rng = ctx.rng
     modes = [0o444, 0o644, 0o600, 0o400, 0o440, 0o640, 0o664, 0o666, 0o200, 0o000, 0o755, 0o404]
@@ -923,7 +911,7 @@ def random_histories(ctx, sb, n):
             if x < 0.62 or not steps:
                 omit = rng.random() < 0.3
                 gs = rng.choice(["asneeded", "asneeded", "never", "only"] if omit else ["asneeded", "asneeded", "never", "only", "always"])
-                vs = [0, 0, 1, 2, 3, 5, 6] + ([4] if via == "inproc" or True else [])
+                vs = [0, 0, 1, 2, 3, 4, 5, 6]
                 steps.append(R(fm=rng.choice(palette), no=rng.random() < 0.3, omit=omit, gs=gs,
                                v=rng.choice(vs), style=rng.randint(0, 3)))
             elif x < 0.8:
@@ -942,6 +930,21 @@ def prune_unknown_paths(camp, stims):
         lay = camp.layout(s["lang"], s["ns"], s["copy"])
         known = set(lay.values())
         s["steps"] = [st for st in s["steps"] if st["a"] == "run" or st["p"] in known]
+
+
+def tree_stamp():
+    """digest of (path, size, mtime) of the package under test: in-process runs use the code imported at start while templates
+    and subprocess runs are read from disk, so the tree has to stand still while the check runs"""
+    h = hashlib.sha256()
+    root = os.path.join(str(REPO), "src", "nunavut")
+    for dp, dn, fns in os.walk(root):
+        dn[:] = sorted(d for d in dn if d != "__pycache__")
+        for fn in sorted(fns):
+            if fn.endswith(".pyc"):
+                continue
+            st = os.stat(os.path.join(dp, fn))
+            h.update(("%s|%d|%d\n" % (os.path.join(dp, fn), st.st_size, st.st_mtime_ns)).encode())
+    return h.hexdigest()
 
 
 # ------------------------------------------------------------------------------------------------------------------------------
@@ -968,6 +971,7 @@ def model_checks(ctx):
 
 def run(ctx):
     phases = ctx.cov["phases_wall_s"] = {}
+    stamp = tree_stamp()
     t = time.time()
     model_checks(ctx)
     phases["model checking"] = round(time.time() - t, 1)
@@ -1072,6 +1076,8 @@ def run(ctx):
     if not sb.py_ok:
         ctx.not_exercised("py target (generation failed in warm-up)")
 
+    if tree_stamp() != stamp:
+        raise MachineryFailure("the tree under test (%s) changed while the check was running; run it again" % REPO)
     t = time.time()
     selftests(ctx, camp)
     phases["binding self-tests"] = round(time.time() - t, 1)
@@ -1093,7 +1099,8 @@ def run(ctx):
         "a share of the histories uses real `python -m nunavut` subprocesses (as root, read-only clauses not observable there)",
         "the copied (non-template) support file is a harness resource injected through the language support module's list_support_files "
         "(no built-in support file is a plain copy); everything else is the unmodified CLI",
-        "files belong to the invoking uid, directories are writable, umask 022; no concurrent writers",
+        "files belong to the invoking uid, directories are writable, umask 022; no concurrent writers; the tree under test does not "
+        "change while the check runs (in-process runs use the code imported at start, subprocess runs read it from disk)",
     ]
 
 
